@@ -1409,3 +1409,252 @@ func mitigationStopHandshake(c *Ctx, id string) {
 		c.Check(ok, id, "first-config-stored", cb.Pos(), "the first configuration is recorded under err==nil", "waitFirstConfig's callback does not record result.Snapshot under err==nil: the component starts without a cluster map")
 	}
 }
+
+// wrapperStepErrors (C20): around every gocbcore operation the wrapper makes further fallible steps — reading the
+// configuration snapshot, resolving collection ids, the dispatch itself, AsyncOp.Wait, an errgroup's Wait. None of
+// their errors may be dropped (the call would report success for something that never happened, or — for the dispatch
+// and the wait — go on to receive from a channel nobody will ever send on and hang):
+//   (a) every error-returning call in a function that contains such an operation (its worker closures included) has
+//       its error reach a return, a panic or a channel send — along edges on which it can be non-nil;
+//   (b) every receive from a result channel made in the wrapper is reached only under err == nil of Wait;
+//   (c) a function that hands work to an errgroup calls Wait and reports its result.
+func wrapperStepErrors(c *Ctx, id string) {
+	w := c.W
+	roots := map[*ssa.Function]bool{}
+	for _, s := range asyncSites(w) {
+		roots[rootFn(s.Fn)] = true
+	}
+	var fns []*ssa.Function
+	for f := range roots {
+		fns = append(fns, f)
+	}
+	sort.Slice(fns, func(i, j int) bool { return fname(fns[i]) < fname(fns[j]) })
+	nCalls := 0
+	for _, root := range fns {
+		c.see(root)
+		var dropped []string
+		var waits []*ssa.Call
+		usesGroup, groupWaitReported := false, false
+		for _, f := range withAnon(root) {
+			// the operation's own callback is judged by C20.R2/R3
+			isCallback := false
+			for _, s := range asyncSites(w) {
+				if s.Callback == f {
+					isCallback = true
+				}
+			}
+			if isCallback {
+				continue
+			}
+			allInstrs(f, func(in ssa.Instruction) {
+				call, ok := in.(*ssa.Call)
+				if !ok {
+					return
+				}
+				cn := calleeName(call.Common())
+				if strings.HasSuffix(cn, "errgroup.Group).Go") {
+					usesGroup = true
+				}
+				if !hasErrorResult(call.Common()) {
+					return
+				}
+				if strings.HasPrefix(cn, "errors.") || strings.HasPrefix(cn, "fmt.") {
+					return
+				}
+				nCalls++
+				ers := errResults(call)
+				isWait := call.Common().IsInvoke() && call.Common().Method.Name() == "Wait"
+				if isWait {
+					waits = append(waits, call)
+				}
+				if t := marshalArgType(call.Common()); t != nil && marshalTotal(t, 0) {
+					return
+				}
+				handedToWait := false
+				if len(ers) > 0 {
+					for _, sk := range errorSinks(ers[0]) {
+						if strings.HasPrefix(sk.Kind, "arg:") && strings.HasSuffix(sk.Kind, ".Wait") {
+							handedToWait = true // AsyncOp.Wait returns the dispatch error unchanged (C20.R1)
+						}
+						// handed to the operation's own callback: the failure is reported the way a completion would be
+						if ci, isCI := sk.In.(ssa.CallInstruction); isCI {
+							for _, st := range asyncSites(w) {
+								if st.Call == call && ci.Common().Value == st.CbValue {
+									handedToWait = true
+								}
+							}
+						}
+					}
+				}
+				if handedToWait {
+					return
+				}
+				if len(ers) == 0 || !reported(errorSinks(ers[0])) {
+					// (_ = x.Close() at teardown is the one idiom that is allowed to drop an error)
+					if strings.HasSuffix(cn, ").Close") || strings.HasSuffix(cn, ".Close") {
+						return
+					}
+					dropped = append(dropped, cn+" @"+w.pos(in.Pos()))
+					return
+				}
+				if strings.HasSuffix(cn, "errgroup.Group).Wait") {
+					groupWaitReported = true
+				}
+			})
+		}
+		sort.Strings(dropped)
+		c.Check(len(dropped) == 0, id, "step-errors@"+fname(root), root.Pos(), "no error of a step around the operation is dropped", "the error of "+strings.Join(dropped, ", ")+" is dropped: the wrapper reports success (or goes on to wait for a completion that will never come)")
+		if usesGroup {
+			c.Check(groupWaitReported, id, "group-wait@"+fname(root), root.Pos(), "the error group's Wait is called and its error reported", "work is handed to an errgroup but the result of Wait is not reported: a failed node query looks like success")
+		}
+		// (b) receives only after a successful wait
+		for _, f := range withAnon(root) {
+			allInstrs(f, func(in ssa.Instruction) {
+				u, ok := in.(*ssa.UnOp)
+				if !ok || u.Op.String() != "<-" {
+					return
+				}
+				if _, made := unwrap(u.X).(*ssa.MakeChan); !made {
+					if a := asAlloc(u.X); a == nil {
+						// a channel that was not made here (observeCloseDoneCh …) is not a result channel
+						if _, isMk := singleStoreOf(u.X).(*ssa.MakeChan); !isMk {
+							return
+						}
+					}
+				}
+				okG := false
+				for _, wt := range waits {
+					if wt.Parent() == f && errGuard(in.Block(), true, func(v ssa.Value) bool { return v == ssa.Value(wt) }) {
+						okG = true
+					}
+				}
+				// an operation without a waiter (deadline of its own): the dispatch must have succeeded
+				for _, st := range asyncSites(w) {
+					if st.Fn == f && errGuard(in.Block(), true, func(v ssa.Value) bool { return isExtractOf(v, st.Call) }) {
+						okG = true
+					}
+				}
+				c.Check(okG, id, "receive-after-wait@"+fname(f), in.Pos(), "the result is received only after Wait succeeded", "a result channel is read on a path where Wait failed or was not consulted: after a failed dispatch nobody will ever send on it")
+			})
+		}
+	}
+	if nCalls < 30 {
+		c.Undecided(id, "step-errors", 0, "only %d fallible steps found in the operation wrappers", nCalls)
+	}
+}
+
+// singleStoreOf: the value a single-store cell holds (nil otherwise).
+func singleStoreOf(v ssa.Value) ssa.Value {
+	v = unwrap(v)
+	if u, ok := v.(*ssa.UnOp); ok {
+		if a, ok := u.X.(*ssa.Alloc); ok {
+			if s, ok := singleStore(a); ok {
+				return unwrap(s)
+			}
+		}
+		if fv, ok := u.X.(*ssa.FreeVar); ok {
+			if b, ok := bindingOf(fv); ok {
+				if a, ok := b.(*ssa.Alloc); ok {
+					if s, ok := singleStore(a); ok {
+						return unwrap(s)
+					}
+				}
+			}
+		}
+	}
+	return v
+}
+
+// seqnoMerge (C02/C15/C16): the high sequence number of a vBucket is the largest any node/collection reported —
+// the merge callback stores ⇔ nothing recorded yet ∨ reported > recorded (exhaustive over the order of the two numbers).
+func seqnoMerge(c *Ctx, id string) {
+	w := c.W
+	var site *asyncSite
+	for _, s := range asyncSites(w) {
+		if s.Op == "GetVbucketSeqnos" {
+			site = s
+		}
+	}
+	c.need(site != nil && site.Callback != nil, id, "the GetVbucketSeqnos callback")
+	cb := site.Callback
+	c.see(cb)
+	// the loop body: one entry
+	entriesP := cb.Params[0].Name()
+	for k := 1; k <= 2; k++ {
+		kk := k
+		atoms := []string{"cur"}
+		bools := []string{}
+		for i := 0; i < k; i++ {
+			atoms = append(atoms, fmt.Sprintf("entry%d.SeqNo", i))
+		}
+		bools = append(bools, "exist")
+		h := &Harness{Fn: cb, Groups: []Group{{Atoms: atoms, Unsigned: true}}, Bools: bools, Quiet: quietLog, MaxSteps: 6000,
+			Args: map[string]func(st *State) AV{entriesP: func(st *State) AV {
+				var cs []*cell
+				for i := 0; i < kk; i++ {
+					if n, ok := cb.Params[0].Type().Underlying().(*types.Slice); ok {
+						cs = append(cs, &cell{typ: n.Elem(), sym: fmt.Sprintf("entry%d", i)})
+					}
+				}
+				return avSlice{cells: cs}
+			}},
+			Oracle: func(st *State, name string, args []AV, res *types.Tuple) ([]AV, bool) {
+				if strings.HasSuffix(name, ".Load") && len(args) == 2 {
+					return []AV{avInt{atom: "cur"}, avBool{st.B("exist")}}, true
+				}
+				return nil, false
+			}}
+		if k == 2 {
+			continue // (the map is an oracle: a second entry would need its state threaded; one entry decides the guard)
+		}
+		c.oae(id, "seqno-merge", cb.Pos(), h, func(st *State, out *Outcome) string {
+			if out.Panicked {
+				return "panics"
+			}
+			var stores []Effect
+			for _, e := range out.Trace {
+				if strings.HasSuffix(e.Name, ".Store") && len(e.Args) == 3 {
+					stores = append(stores, e)
+				}
+			}
+			want := !st.B("exist") || st.Lt("cur", "entry0.SeqNo")
+			if want != (len(stores) == 1) || len(stores) > 1 {
+				return fmt.Sprintf("recorded %d times with exist=%v, reported %s recorded", len(stores), st.B("exist"), map[bool]string{true: ">", false: "≤"}[st.Lt("cur", "entry0.SeqNo")])
+			}
+			if len(stores) == 1 && !strings.Contains(avString(stores[0].Args[2]), "entry0.SeqNo") {
+				return "records " + avString(stores[0].Args[2]) + " instead of the reported sequence number"
+			}
+			if len(stores) == 1 && !strings.Contains(avString(stores[0].Args[1]), "entry0.VbID") {
+				return "records under " + avString(stores[0].Args[1]) + " instead of the entry's vBucket"
+			}
+			return ""
+		}, "store(entry.VbID, entry.SeqNo) ⇔ ¬exist ∨ entry.SeqNo > recorded")
+	}
+	// every node, every collection: i = 1..numNodes inclusive, j = 0..collections-1
+	root := rootFn(site.Fn)
+	okNodes := false
+	allInstrs(root, func(in ssa.Instruction) {
+		ifi, ok := in.(*ssa.If)
+		if !ok {
+			return
+		}
+		b, ok := ifi.Cond.(*ssa.BinOp)
+		if !ok || b.Op.String() != "<=" {
+			return
+		}
+		phi, isPhi := b.X.(*ssa.Phi)
+		if !isPhi {
+			return
+		}
+		init1 := false
+		for _, e := range phi.Edges {
+			if w.Origin(e) == "const(1)" {
+				init1 = true
+			}
+		}
+		if init1 && strings.Contains(w.Origin(b.Y), "NumServers") {
+			okNodes = true
+		}
+	})
+	c.Check(okNodes, id, "seqno-nodes", root.Pos(), "every node is asked: server index runs from 1 to NumServers() inclusive", "the node loop does not run from 1 to NumServers() inclusive: the vBuckets of a node are missing from the map")
+}
